@@ -4,6 +4,7 @@
 use cfr::{Game, PlayerNum, RegretParams, SolveMethod};
 
 mod ctor;
+mod eval;
 mod games;
 use games::*;
 
@@ -383,6 +384,7 @@ fn main() {
         "c09" => c09(),
         "xdriver" => xdriver(),
         "gs" => gs(),
+        "c01" => eval::c01(),
         "c11" => ctor::c11(args.get(2).map(|s| s.as_str()).unwrap_or("")),
         "c06" => threads(&[(SolveMethod::Full, true), (SolveMethod::Full, false)]),
         "c07" => {
